@@ -261,9 +261,12 @@ def work(jobs: list[dict]) -> list[dict]:
     out = []
     for job in jobs:
         r = _exec(job)
-        if r["info"].get("serve_loop_ended_with"):
-            _WORLDS.pop(job["case"]["tr"], None)       # that connection is gone; the observation stands (no retry needed)
-        elif r["obs"]["hung"] or (not job["case"]["tr"].startswith("http") and _suspicious(job["case"], r["obs"])):
+        c = job["case"]
+        sock = not c["tr"].startswith("http")
+        reached = c["cls"] == "none" or r["obs"]["srvtype"] != ""      # did the implementation get to its raise site
+        if r["info"].get("serve_loop_ended_with") and reached:
+            _WORLDS.pop(c["tr"], None)       # this case ended the serve loop; the observation stands
+        elif r["obs"]["hung"] or not reached or (sock and _suspicious(c, r["obs"])):
             # a verdict must not depend on what an earlier call left on the connection (that is C04's subject),
             # nor on a slow machine: anything odd is repeated on a fresh connection with a generous watchdog
             r2 = _exec(job, fresh=True)
@@ -285,8 +288,8 @@ def run(ctx: Ctx) -> None:
               # one-at-a-time variations (gap review): reduced grid x {extra transports, extra message shapes,
               # exception chains, deep tracebacks, alternative client consumption}
               "VClasses": {"ValueError", "SessionLostError"} if quick
-              else {"ValueError", "KeyError", "UserError", "SessionLostError", "MethodNotImplementedError"},
-              "VMsgClasses": {"ascii"} if quick else {"empty", "ascii", "long"},
+              else {"ValueError", "KeyError", "SessionLostError"},
+              "VMsgClasses": {"ascii"} if quick else {"ascii", "long"},
               "XMsgClasses": {"multiarg", "nonstr", "surrogate"},
               "XTransports": {"unix", "shm", "pipehook", "httphook", "httpsticky", "httpplain"} if quick
               else {"unix", "tcp", "shm", "pipehook", "httphook", "httpsticky", "httpplain"},
@@ -345,11 +348,16 @@ def run(ctx: Ctx) -> None:
         for idx, clauses in bad:
             job, r = jobs[idx], results[idx]
             c = job["case"]
-            if "RaisedWhatWasAsked" in clauses:
+            o = r["obs"]
+            if "RaisedWhatWasAsked" in clauses and not (o["srvtype"] == "" and (o["nerr"] or o["nother"] or o["hung"])):
+                # (an error / hang that reached the client before the implementation raised anything is the code's
+                #  doing and is judged by NoSpuriousError; anything else here is the harness's)
                 raise MachineryError(f"harness: the implementation did not raise what the case asked for: {c} {r}")
             sig_base = {"cls": c["cls"], "group": job["exp"]["group"], "msg": c["msg"], "shape": c["shape"],
                         "site": c["site"], "tr": c["tr"], "mode": c["mode"], "chain": c["chain"], "depth": c["depth"]}
             for cl in clauses:
+                if cl == "RaisedWhatWasAsked":
+                    continue
                 if cl == "SuccessAfterFailure":      # not a clause of the statement (connection/worker reuse is C04/C14)
                     ctx.drift.append({"case": c, "follow_up_call_failed": r["info"].get("follow_events")})
                     continue
